@@ -781,6 +781,9 @@ class AECDHKeyExchange(KeyExchange):
             ext_s = self.serverHello.getExtension(
                 ExtensionType.ec_point_formats)
             if ext_c and ext_s:
+                if not ext_s.formats or not ext_c.formats:
+                    raise TLSIllegalParameterException(
+                        "Empty ec_point_formats extension")
                 try:
                     ext_supported = [
                         i for i in ext_c.formats if i in ext_s.formats
